@@ -584,6 +584,20 @@ class SymCtx:
     def prove_close(self, X, Y, label, tol=1e-9):
         return self.prove_eq(X, Y, label)
 
+    # logical connectives that work in both modes
+    def Not(self, a):
+        t = self._bt(a)
+        return self.S._mkB(z3.Not(t))
+
+    def And(self, *xs):
+        return self.S._mkB(z3.And([self._bt(x) for x in xs])) if xs else True
+
+    def Or(self, *xs):
+        return self.S._mkB(z3.Or([self._bt(x) for x in xs])) if xs else False
+
+    def Implies(self, a, b):
+        return self.S._mkB(z3.Implies(self._bt(a), self._bt(b)))
+
     def reachable(self):
         """vacuity guard: the path condition at this point must be satisfiable"""
         r = self._check()
